@@ -29,13 +29,16 @@ CLAIMS = {
              "written or not -- the exposed multipliers satisfy the certificate identity for all symmetric G and all F and "
              "the proof reconstruction returns exactly its constant tau; the reported dual matrix is the symmetric part of "
              "the entry multipliers; identity + signs + PSD multipliers imply objective <= tau on the feasible set; the "
-             "formula used before the repair of F-C01a (/repo bd99691) is kept and refuted as a regression. Tie: real "
+             "formula used before the repair of F-C01a (/repo bd99691) is kept and refuted as a regression; up to solver "
+             "tolerance: with NO solver assumption the reconstruction satisfies objective = fd + sum multiplier x constraint "
+             "- <residual,G> (fd = returned constant + remaining terms), and multipliers dual feasible only up to eps give "
+             "objective <= fd + eps x (l1 size of the constrained quantities) on the feasible set. Tie: real "
              "emission, recovery, assignment and check_feasibility run on scripted position-tagged duals (duplicated "
              "objects, second solves, class LMIs not symmetric as written) and compared exactly with the model; real SCS "
              "solves measure the solver assumption.",
         ref="DESIGN.md 5.1",
         note="solver returns stationarity-satisfying duals (assumed; residual measured each run); PSD multipliers as rank-one "
-             "sums, primal matrices as quadratic-form PSD; MOSEK side is C11; tolerance propagation not mechanised",
+             "sums, primal matrices as quadratic-form PSD; MOSEK side is C11; tolerance propagation mechanised as C01_reconstruction_unconditional / C01_weak_duality_tolerance (exact rational duals, inexact KKT), float rounding of PEPit's own arithmetic is not",
         technique="Coq proof (induction over sent lists; algebra over reals) + scripted-dual correspondence"),
     "C14": dict(
         text="Coq theorems over the post-solve event list REGENERATED from PEP._solve_with_wrapper: duals are assigned exactly "
